@@ -440,6 +440,10 @@ func (fi *FuncInfo) transfer(in ssa.Instruction, set func(ssa.Value, []PVal), ch
 				steps := pv.Loc.Path.Steps()
 				if len(steps) == 1 && !steps[0].Field {
 					set(x, []PVal{{Loc: Loc{Root: Root{Kind: KElem, Index: r.Index}}}})
+				} else if len(steps) == 0 {
+					// the parameter points at a cell that holds a pointer (a pointer variable captured by a closure,
+					// lambda-lifted): like a one-element slice of pointers
+					set(x, []PVal{{Loc: Loc{Root: Root{Kind: KElem, Index: r.Index}}}})
 				} else {
 					a.problem(f, in, "load of a pointer from inside parameter storage at %s", fi.LocName(pv.Loc))
 				}
@@ -761,6 +765,37 @@ func singular(r Root) bool {
 	return r.Kind == KParam || r.Kind == KGlobal || r.Kind == KGPointee || r.Kind == KFresh
 }
 
+// singularIn: r designates exactly one object throughout fn. Besides the singular root kinds this holds for
+// the pointee of a pointer CELL handed in by address (a pointer variable captured by a closure: formal of type
+// **T) that fn itself never assigns: the cell holds one pointer for the whole call.
+func (fi *FuncInfo) singularIn(r Root) bool {
+	if singular(r) {
+		return true
+	}
+	if r.Kind != KElem {
+		return false
+	}
+	fs := load.Formals(fi.Fn)
+	if r.Index >= len(fs) {
+		return false
+	}
+	pt, ok := fs[r.Index].Type().Underlying().(*types.Pointer)
+	if !ok {
+		return false
+	}
+	if _, isPP := pt.Elem().Underlying().(*types.Pointer); !isPP {
+		return false
+	}
+	if refs := fs[r.Index].Referrers(); refs != nil {
+		for _, ref := range *refs {
+			if st, isStore := ref.(*ssa.Store); isStore && st.Addr == fs[r.Index] {
+				return false // the cell is reassigned here
+			}
+		}
+	}
+	return true
+}
+
 func (fi *FuncInfo) events() {
 	f := fi.Fn
 	for _, b := range f.Blocks {
@@ -809,7 +844,7 @@ func (fi *FuncInfo) events() {
 						continue
 					}
 					evs = append(evs, Event{Op: OpWrite, Loc: pv.Loc, Instr: in})
-					if len(pvs) == 1 && singular(pv.Loc.Root) && !pv.Loc.Path.HasAny() {
+					if len(pvs) == 1 && fi.singularIn(pv.Loc.Root) && !pv.Loc.Path.HasAny() {
 						evs = append(evs, Event{Op: OpMustWrite, Loc: pv.Loc, Instr: in})
 					}
 				}
@@ -907,7 +942,7 @@ func (fi *FuncInfo) callEvents(c *ssa.Call) []Event {
 		sortLocs(ls)
 		for _, l := range ls {
 			ts := fi.translate(c, false, l)
-			if len(ts) == 1 && singular(ts[0].Root) && !ts[0].Path.HasAny() {
+			if len(ts) == 1 && fi.singularIn(ts[0].Root) && !ts[0].Path.HasAny() {
 				evs = append(evs, Event{Op: OpMustWrite, Loc: ts[0], Instr: c, Via: via})
 			}
 		}
@@ -1841,6 +1876,15 @@ func (fi *FuncInfo) addReturnSite(sum *Summary, ret *ssa.Return, st state, v *vs
 			// the nil constant; errors.New / fmt.Errorf; a sentinel error variable (written once, by the
 			// initialiser, with a non-nil error); a non-nil concrete value boxed into the interface
 			rs.Err = k
+		} else {
+			// `if err != nil { return nil, err }`: on the branch where it was tested non-nil (nil), it is
+			from := ret.Block()
+			if v != nil {
+				from = v.pred
+			}
+			if k := knownByBranch(ev, from); k != 2 {
+				rs.Err = k
+			}
 		}
 		switch e := ev.(type) {
 		case *ssa.Extract:
@@ -2029,4 +2073,44 @@ func (fi *FuncInfo) loopArrayGain(pb, b *ssa.BasicBlock) []Loc {
 		}
 	}
 	return out
+}
+
+// knownByBranch: the error value ev is compared with nil by a branch one side of which dominates block b
+// (and is entered only through that branch): 1 = non-nil there, 0 = nil there, 2 = unknown.
+func knownByBranch(ev ssa.Value, b *ssa.BasicBlock) int {
+	refs := ev.Referrers()
+	if refs == nil {
+		return 2
+	}
+	for _, ref := range *refs {
+		bo, ok := ref.(*ssa.BinOp)
+		if !ok || (bo.Op != token.EQL && bo.Op != token.NEQ) {
+			continue
+		}
+		other := bo.Y
+		if bo.Y == ev {
+			other = bo.X
+		}
+		if c, isC := other.(*ssa.Const); !isC || c.Value != nil {
+			continue
+		}
+		for _, r2 := range *bo.Referrers() {
+			ifi, ok := r2.(*ssa.If)
+			if !ok {
+				continue
+			}
+			blk := ifi.Block()
+			for side, succ := range blk.Succs {
+				if len(succ.Preds) != 1 || !(succ == b || succ.Dominates(b)) {
+					continue
+				}
+				nonNil := (bo.Op == token.NEQ) == (side == 0)
+				if nonNil {
+					return 1
+				}
+				return 0
+			}
+		}
+	}
+	return 2
 }
